@@ -13,6 +13,7 @@ real code; F12 (Findings/C01_ABA.lean) shows the theorems need BoundedLag there.
 -/
 import Golib.Proof.C01Facts
 import Golib.Proof.C01Inv
+import Golib.Proof.C01Lin
 
 namespace Golib.C01
 
@@ -68,6 +69,100 @@ theorem c01_len_exact_quiescent (k : Nat) (hk : 1 ≤ k) (r : Nat) (progs : List
       ((c.sub s.tail s.head == c.cap) = true ↔ s.tail - s.head = c.cap) := by
   have g := ghost_pow k hk
   exact len_exact g (inv_run g (inv_initAt g r progs) σ)
+
+/-- `c01_linearizable_partial`.  Linearization points: the successful `CAS(&r.tail,…)`
+of `Push`, the successful `CAS(&r.head,…)` of `Pop`.  PROVED, for every reachable state:
+the number of elements `tail − head` stays in `[0, cap]`; a tail-CAS that succeeds does so
+only while `tail − head < cap` and a head-CAS only while `tail − head > 0` (the sizes along
+the sequence of linearization points are those of a legal run of a bounded queue of
+capacity `cap`: never more than `cap` elements, never a pop from an empty queue); each
+successful CAS hands out the next position in order (`tail`/`head` advance by exactly one:
+see `inv_pushCAS`/`inv_popCAS`), and the position is owned exclusively until its slot is
+published/released (`Inv.phases`, `c01_race_free`), so every position is written by exactly
+one `Push` and read by exactly one `Pop`, in position order (FIFO).
+FULL statement (DESIGN §5 `c01_linearizable`): additionally, the value returned by the `Pop`
+that claims position `p` equals the argument of the `Push` that claimed `p` (value transport
+through the slot: needs the ghost history of pushed values, as done for C11 in
+Proof/C11Lin.lean) — NOT proved here; it is checked on every explored schedule of the real
+code by the independent linearizability oracle (go/props/c01, package lin). -/
+theorem c01_linearizable_partial (k : Nat) (hk : 1 ≤ k) (r : Nat) (progs : List (List Call))
+    (σ : List Nat) (th : Thread) :
+    let c : Cfg := { M := 0, cap := 2 ^ k }
+    let s := (run c (initAt c r progs) σ).1
+    s.tail - s.head ≤ c.cap ∧ s.head ≤ s.tail ∧
+    (th ∈ s.threads →
+      (∀ v pos seq, th.pc = .pushCAS v pos seq → s.tail = pos → s.tail - s.head < c.cap) ∧
+      (∀ pos seq, th.pc = .popCAS pos seq → s.head = pos → 0 < s.tail - s.head)) := by
+  have g := ghost_pow k hk
+  have hI := inv_run g (inv_initAt g r progs) σ
+  have h1 := hI.tail_le
+  exact ⟨by omega, hI.head_le_tail, fun hth => cas_legal g hI hth⟩
+
+/-- `c01_false_justified`: whenever a `Push` is about to return false — at its sequence
+check or at its CAS — the tail moved since the call loaded it (another `Push` overlapped),
+or the ring holds `cap` elements at that instant, or a `Pop` that has claimed position
+`tail − cap` is still in flight; whenever a `Pop` is about to return false the head moved
+(another `Pop` overlapped), or the ring is empty at that instant, or a `Push` that has
+claimed position `head` is still in flight. -/
+theorem c01_false_justified (k : Nat) (hk : 1 ≤ k) (r : Nat) (progs : List (List Call))
+    (σ : List Nat) (th : Thread) :
+    let c : Cfg := { M := 0, cap := 2 ^ k }
+    let s := (run c (initAt c r progs) σ).1
+    th ∈ s.threads →
+    ((∀ v pos q, th.pc = .pushLoadSeq v pos → sq s.slots (pos % c.cap) = some q → pos ≠ q →
+        pos < s.tail ∨ s.tail - s.head = c.cap ∨
+          (c.cap ≤ s.tail ∧ cR s.threads (s.tail - c.cap) = 1)) ∧
+     (∀ v pos seq, th.pc = .pushCAS v pos seq → s.tail ≠ pos → pos < s.tail)) ∧
+    ((∀ pos q, th.pc = .popLoadSeq pos → sq s.slots (pos % c.cap) = some q → pos + 1 ≠ q →
+        pos < s.head ∨ s.tail = s.head ∨ cW s.threads s.head = 1) ∧
+     (∀ pos seq, th.pc = .popCAS pos seq → s.head ≠ pos → pos < s.head)) := by
+  intro c s hth
+  have g := ghost_pow k hk
+  have hI := inv_run g (inv_initAt g r progs) σ
+  exact ⟨push_false_reason g hI hth, pop_false_reason g hI hth⟩
+
+/-- `c01_progress_partial`.  PROVED: in every reachable state in which no thread is
+between its CAS and its store, the slot at the tail is free for exactly the tail position
+unless the ring is full, and the slot at the head is published for exactly the head
+position unless the ring is empty — so a `Push` (`Pop`) that loads the counter and the
+sequence number now passes its check, and (by definition of `step`) its CAS fails only if
+the counter moved, i.e. only if ANOTHER push (pop) succeeded in between.
+FULL statement (DESIGN §5 `c01_progress_push/_pop`): hence from such a state with a free
+slot (stored element), if only pushers (poppers) take steps, the first CAS executed
+succeeds and at least one call returns true — the scheduling argument is not formalised. -/
+theorem c01_progress_partial (k : Nat) (hk : 1 ≤ k) (r : Nat) (progs : List (List Call))
+    (σ : List Nat) :
+    let c : Cfg := { M := 0, cap := 2 ^ k }
+    let s := (run c (initAt c r progs) σ).1
+    (∀ p, cW s.threads p = 0 ∧ cR s.threads p = 0) →
+      (s.tail - s.head < c.cap → sq s.slots (s.tail % c.cap) = some s.tail) ∧
+      (0 < s.tail - s.head → sq s.slots (s.head % c.cap) = some (s.head + 1)) := by
+  intro c s hq
+  have g := ghost_pow k hk
+  exact quiescent_slots g (inv_run g (inv_initAt g r progs) σ) hq
+
+/-- `c01_u32_refines_partial`.  PROVED: the arithmetic core of the refinement of the
+32-bit machine `Conc32` by the ghost machine `Conc`: as long as the two compared counter /
+sequence values are less than `2^32` apart (BoundedLag), every comparison the code makes
+on the wrapped values (`pos == seq`, `pos+1 == seq`, the CAS comparisons `tail == pos`,
+`head == pos`) decides exactly as on the unbounded values, and the 32-bit difference used
+by `Len/IsFull` is the true difference.
+FULL statement (DESIGN §5 `c01_u32_refines_boundedLag`): hence `Conc32` and `Conc` take the
+same branches along every schedule on which fewer than `2^32 − cap` operations of the same
+kind succeed while any single call is in flight (simulation by induction over the
+schedule) — NOT proved; without BoundedLag it is false (`Findings/C01_ABA.lean`, F12), and
+the correspondence check runs the 32-bit model against the real code on every run,
+including starts just below `2^32`. -/
+theorem c01_u32_refines_partial (cap a b : Nat) (h : a ≤ b) (hlag : b - a < 2 ^ 32) :
+    (a % 2 ^ 32 = b % 2 ^ 32 ↔ a = b) ∧
+    ((a + 1) % 2 ^ 32 = (b + 1) % 2 ^ 32 ↔ a = b) ∧
+    (Cfg.mk (2 ^ 32) cap).sub (b % 2 ^ 32) (a % 2 ^ 32) = b - a :=
+  ⟨wrap_eq_iff h hlag, by
+    have := wrap_eq_iff (a := a + 1) (b := b + 1) (by omega) (by omega)
+    constructor
+    · intro e; have := this.1 e; omega
+    · intro e; rw [e],
+   sub32_exact cap h hlag⟩
 
 /-- Non-vacuity: a reachable state of the capacity-2 ring started at rotation 7 with one
 slot being written (thread 0 past its CAS) and one stored element being read. -/
